@@ -16,6 +16,24 @@ pub struct Group {
     pub fns: Vec<(String, String, String)>,
     /// type aliases `X<T> = Result<T, _>` used by the targets
     pub result_aliases: Vec<String>,
+    /// calls that are abstracted to an extra parameter of one target
+    pub opaque: Vec<Opaque>,
+}
+
+/// In target `owner::func` the expression `expr` (token text, whitespace ignored) — a call of the
+/// trait method `tr::method` (`fn(&self) -> integer`) on a field of generic type — is replaced by
+/// the parameter `param`, typed by the trait's declaration.
+pub struct Opaque {
+    pub owner: String,
+    pub func: String,
+    pub expr: String,
+    pub param: String,
+    pub tr: String,
+    pub method: String,
+}
+
+fn opq(owner: &str, func: &str, expr: &str, param: &str, tr: &str, method: &str) -> Opaque {
+    Opaque { owner: owner.into(), func: func.into(), expr: expr.into(), param: param.into(), tr: tr.into(), method: method.into() }
 }
 
 fn p2(v: &[(&str, &str)]) -> Vec<(String, String)> {
@@ -52,6 +70,7 @@ pub fn groups() -> Vec<Group> {
                 (MASKED, "BitMask", "masked_value"),
             ]),
             result_aliases: p1(&["GenApiResult"]),
+            opaque: vec![],
         },
         Group {
             out: "FnAccessRight".into(),
@@ -68,16 +87,32 @@ pub fn groups() -> Vec<Group> {
                 (MEMORY, "AccessRight", "meet"),
             ]),
             result_aliases: p1(&[]),
+            opaque: vec![],
         },
         Group {
             out: "FnCmd".into(),
-            doc: "C10: length arithmetic of device/src/u3v/protocol/cmd.rs.".into(),
-            tie: "CamVerif/Proofs/C10GenTie.lean".into(),
+            doc: "C09/C10: length arithmetic and read-chunk iterator of device/src/u3v/protocol/cmd.rs.".into(),
+            tie: "CamVerif/Proofs/C10GenTie.lean (+ C10GenTie2.lean, C09GenTie.lean)".into(),
             enums: p2(&[]),
-            structs: p2(&[]),
+            structs: p2(&[(CMD, "ReadMem"), (CMD, "ReadMemChunks")]),
             consts: p3(&[(CMD, "CommandPacket", "ACK_HEADER_LENGTH")]),
-            fns: p3(&[(CMD, "ReadMem", "maximum_read_length"), (CMD, "", "into_scd_len")]),
+            fns: p3(&[
+                (CMD, "ReadMem", "maximum_read_length"),
+                (CMD, "", "into_scd_len"),
+                (CMD, "CommandPacket", "header_len"),
+                (CMD, "CommandPacket", "cmd_len"),
+                (CMD, "CommandPacket", "maximum_ack_len"),
+                (CMD, "ReadMem@CommandScd", "scd_len"),
+                (CMD, "ReadMem@CommandScd", "ack_scd_len"),
+                (CMD, "WriteMem@CommandScd", "ack_scd_len"),
+                (CMD, "ReadMem", "chunks"),
+                (CMD, "ReadMemChunks@Iterator", "next"),
+            ]),
             result_aliases: p1(&["Result"]),
+            opaque: vec![
+                opq("CommandPacket", "cmd_len", "self.scd.scd_len()", "scd_scd_len", "CommandScd", "scd_len"),
+                opq("CommandPacket", "maximum_ack_len", "self.scd.ack_scd_len()", "scd_ack_scd_len", "CommandScd", "ack_scd_len"),
+            ],
         },
     ]
 }
@@ -97,6 +132,7 @@ pub fn adhoc(repo: &std::path::Path, rel: &str, name: &str) -> Result<Group, Str
         consts: vec![],
         fns: vec![],
         result_aliases: vec![],
+        opaque: vec![],
     };
     let mut types = vec![];
     for it in &ast.items {
